@@ -152,7 +152,7 @@ func TestGolden(t *testing.T) {
 		}
 		// history that produced the file + what the current build sees after opening it
 		vh.ReadNDJSON(t, filepath.Join(gd, "trace.ndjson"), func(m json.RawMessage) { w.Put(m) })
-		w.Put(reopenEvent{Ev: "reopen", Kek: sys.KEK.Uses(), FileSame: bytes.Equal(golden, after), State: stateForTrace(st)})
+		w.Put(reopenEvent{Ev: "reopen", Kek: OpenKek(sys.KEK.Uses()), FileSame: bytes.Equal(golden, after), State: stateForTrace(st)})
 		res.Sample(map[string]any{"file": name, "bytes": len(golden), "opens_to": StateKey(st, true)})
 	}
 	w.Close()
